@@ -204,6 +204,8 @@ pub struct Log {
 }
 
 static NEXT_LOG_ID: AtomicU64 = AtomicU64::new(1);
+/// the log of the scenario currently running (the watchdog reads it when a scenario is stuck)
+pub static CURRENT: Mutex<Option<Arc<Log>>> = Mutex::new(None);
 /// Mirror of the most recent log's clock, for the watchdog (progress indicator only).
 pub static PROGRESS: AtomicU64 = AtomicU64::new(0);
 pub static OUTSTANDING: AtomicI64 = AtomicI64::new(0);
@@ -215,12 +217,14 @@ thread_local! {
 
 impl Log {
     pub fn new() -> Arc<Log> {
-        Arc::new(Log {
+        let l = Arc::new(Log {
             id: NEXT_LOG_ID.fetch_add(1, Ordering::Relaxed),
             clock: AtomicU64::new(1),
             bufs: Mutex::new(Vec::new()),
             outstanding: AtomicI64::new(0),
-        })
+        });
+        *CURRENT.lock().unwrap() = Some(l.clone());
+        l
     }
 
     fn with_buf<R>(&self, f: impl FnOnce(u32, &Buf) -> R) -> R {
